@@ -372,7 +372,7 @@ def rule_schemeeq(E, R, rule="R08-schemeeq"):
     h = E.hir(fn)
     if not h:
         return R.cannot(rule, fn, "anchor not found")
-    t = tail(h["body"])
+    t = fn_result(h)
     ok = t.get("k") == "Call" and norm(t.get("callee", "")) == "alloc::sync::Arc::ptr_eq" and \
         root_is_field(t["args"][0], "self", "inner") and root_is_field(t["args"][1], param_name(h, 1), "inner")
     R.check(ok, rule, fn, "schemes are equal iff they share the same allocation (Arc::ptr_eq)",
@@ -617,7 +617,7 @@ def rule_guardpair(E, R):
     # DerefMut gives access to the temporary context only
     hd = E.hir("<execution_context::ExecutionContextGuard<U, T> as core::ops::deref::DerefMut>::deref_mut")
     if hd:
-        t = tail(hd["body"])
+        t = fn_result(hd)
         R.check(t.get("k") == "Field" and t.get("name") == "new", rule, norm(hd["path"]), "writes through the guard go to the temporary context", where=hd["span"])
 
 
